@@ -56,8 +56,10 @@ impl Pool {
         if self.inner.used() == self.inner.capacity()
             && self.inner.capacity() < self.inner.maximum_capacity()
         {
+            // `.max(1)`: a pool created with `minimum = 0` has capacity 0, and
+            // doubling 0 never grows it: no buffer could ever be checked out.
             self.inner.grow_to(std::cmp::min(
-                self.inner.capacity() * 2,
+                (self.inner.capacity() * 2).max(1),
                 self.inner.maximum_capacity(),
             ));
             debug!(
